@@ -22,6 +22,15 @@ Reading : an accepted connection whose handler has begun counts as IN FLIGHT unt
           the stop operation is still blocked after 1 s — compared with the model — and must return once the client
           disconnects (`stop-hang-after-release` otherwise); a stop operation that returns early must satisfy its
           post-conditions at that point (`worker-alive-after-stop`, `post: socket-open`).
+Address : histories in which the server's ADDRESS is contended for or goes away (model JRV.Model.ServerContend, component
+          `worldseq`, theorems C12_contender_* / C12_world_projects / C12_serves_after_contention): a SECOND server of the same
+          kind is constructed on the address the first one listens on (`contend`: TCP port and Unix path; its `bind` fails and
+          the failure path of its constructor runs `server_close()`), before / while / after the first one serves, with requests
+          in flight, once or twice; a server constructed with bind_and_activate=False and closed (`unbound`); the socket file
+          removed by the environment (`rmfile`, Unix).  Monitor = the property statement for the FIRST server: every request
+          after the contention is answered with its own reply, executed once; shutdown() / server_close() return and do not
+          raise; afterwards the listening socket is closed and the workers of its pool are dead — and for the contender: its
+          own socket is closed and the workers of its own pool are dead when its constructor has raised.
 Stage 2 : the hand-over to the request pool under the deterministic scheduler (harness/poolpaths.py, no sockets): a real
           PooledJSONRPCServer (bind_and_activate=False, default or user pool) whose `process_request_thread` is a recording
           stub; a managed accept-loop thread calls `process_request` for a sequence of fake requests, interleaved with the
@@ -52,6 +61,8 @@ REQUIRED_THEOREMS = [
     "C12_gen_serverClose", "C12_gen_serveFlag", "C12_gen_processRequest",
     "C12_gen_poolRetireRule", "C12_gen_poolGrowthRule", "C12_gen_poolPendingStores", "C12_gen_poolUnlockedAccesses",
     "C12_gen_sharedWrites", "C12_gen_catchAll", "C12_gen_cfg", "C12_gen_isolation", "C12_gen_survives",
+    "C12_contender_frame", "C12_world_projects", "C12_contention_transparent", "C12_stop_independent_of_address",
+    "C12_contender_terminates", "C12_serves_after_contention", "C12_gen_plainServerClose", "C12_gen_failedConstructorCloses",
 ]
 
 DEADLINE = 12.0       # generous bound for something that must happen (robust under CPU load)
@@ -309,10 +320,13 @@ class Life(object):
     """One real server under a life-cycle history."""
     counter = 0
 
-    def __init__(self, kind, family, tmpdir, pool_spec, http11=False):
+    def __init__(self, kind, family, tmpdir, pool_spec, http11=False, bind=True):
         import jsonrpclib.SimpleJSONRPCServer as SRV
         import jsonrpclib.threadpool as TP
         self.kind, self.family = kind, family
+        self.bound = bind
+        self.pool_spec = pool_spec
+        self.contenders = []
         self.gates = {}
         self.entered = {}
         self.pool = None
@@ -344,11 +358,13 @@ class Life(object):
                 self.pool = TP.ThreadPool(pool_spec[0], pool_spec[1])
                 self.pool.start()
             self.server = SRV.PooledJSONRPCServer(self.addr, requestHandler=Handler, logRequests=False, address_family=fam,
-                                                  config=self.cfg, thread_pool=self.pool)
+                                                  config=self.cfg, thread_pool=self.pool, bind_and_activate=bind)
             self.pool = self.server._PooledJSONRPCServer__request_pool
         else:
             self.server = SRV.SimpleJSONRPCServer(self.addr, requestHandler=Handler, logRequests=False, address_family=fam,
-                                                  config=self.cfg)
+                                                  config=self.cfg, bind_and_activate=bind)
+        self.handler_class = Handler
+        self.fam = fam
         reg = self.server.register_function
         reg(self._echo, "echo")
         reg(self._slow, "slow")
@@ -430,6 +446,86 @@ class Life(object):
         self.background(build("slow", tok))
         return self.entered[tok].wait(deadline())
 
+    def listen_address(self):
+        """The address a client (or a second server) would use: the Unix path, or the TCP port the server got."""
+        if self.family == "unix":
+            return self.addr
+        return ("127.0.0.1", self.server.server_address[1])
+
+    def contend(self):
+        """Constructs a SECOND server of the same kind (own pool of the same shape) on the address this one listens on.
+        -> (op result for the correspondence, [(violation, key)]).  The instance is captured before the library constructor
+        runs, so that its socket and its pool can be looked at after the constructor has raised."""
+        import jsonrpclib.SimpleJSONRPCServer as SRV
+        import jsonrpclib.threadpool as TP
+        base = SRV.PooledJSONRPCServer if self.kind == "pooled" else SRV.SimpleJSONRPCServer
+        captured = []
+
+        class Contender(base):
+            def __init__(self, *args, **kwargs):
+                captured.append(self)
+                base.__init__(self, *args, **kwargs)
+
+        viol = []
+        kwargs = dict(requestHandler=self.handler_class, logRequests=False, address_family=self.fam, config=self.cfg)
+        bpool = None
+        if self.kind == "pooled" and self.pool_spec is not None:
+            bpool = TP.ThreadPool(self.pool_spec[0], self.pool_spec[1])
+            bpool.start()
+            kwargs["thread_pool"] = bpool
+        k, v = run_with_watchdog(lambda: Contender(self.listen_address(), **kwargs))
+        if k == "hang":
+            HANG_SEEN[0] = True
+            return "hang", [("the constructor of a second server on the busy address %r did not return within %.0f s"
+                             % (self.listen_address(), DEADLINE), "contender: hang")]
+        b = captured[0] if captured else None
+        self.contenders.append(b)
+        if k == "ok":
+            # the address was not busy after all (never on a bound first server): a second, independent server
+            run_with_watchdog(v.server_close, 3)
+            return "bound", []
+        if not isinstance(v, OSError):
+            viol.append(("the constructor of a second server on the busy address raised %r instead of the bind error (its "
+                         "server_close() on the failure path failed)" % (v,), "contender: stop-raised"))
+        sock = "closed"
+        try:
+            if b.socket.fileno() != -1:
+                sock = "open"
+        except AttributeError:
+            sock = "none"
+        if sock != "closed":
+            viol.append(("the second server's constructor failed (%r) and left its own socket %s" % (v, sock), "contender: socket-open"))
+        pool_state = "none"
+        if self.kind == "pooled":
+            p = getattr(b, "_PooledJSONRPCServer__request_pool", None)
+            pool_state = "stopped" if (p is not None and p._done_event.is_set()) else "running"
+            threads = list(p._threads) if p is not None else []
+            if pool_state != "stopped":
+                viol.append(("the second server's constructor failed (%r) and left its own request pool running" % (v,),
+                             "contender: pool-running"))
+                if p is not None:
+                    run_with_watchdog(p.stop, 3)
+            elif not wait_for(lambda: not any(t.is_alive() for t in threads)):
+                viol.append(("workers of the failed second server's own pool are still alive: %r"
+                             % [t.name for t in threads if t.is_alive()], "contender: workers-alive"))
+        return "refused:%s:%s" % (sock, pool_state), viol
+
+    def reachable(self):
+        """Does a client connecting to the address reach a listening socket?"""
+        if not self.bound:
+            return False
+        try:
+            if self.family == "unix":
+                s = socket.socket(socket.AF_UNIX, socket.SOCK_STREAM)
+                s.settimeout(2.0)
+                s.connect(self.addr)
+            else:
+                s = socket.create_connection(self.listen_address(), 2.0)
+        except OSError:
+            return False
+        s.close()
+        return True
+
     def snapshot_pool_threads(self):
         if self.pool is not None:
             for t in list(self.pool._threads):
@@ -509,6 +605,47 @@ def survival_histories(rng, thorough):
     return out
 
 
+def contention_histories(kind, thorough):
+    """A second server is constructed on the first one's address (`contend`): before it serves, while it serves (nothing in
+    flight / a request in flight / after failing requests), twice; the first one then answers requests and is stopped."""
+    out = [
+        ["serve", "contend", "req", "shutdown", "close"],
+        ["serve", "req", "contend", "req", "notif", "shutdown", "close"],
+        ["contend", "close"],
+        ["contend", "serve", "req", "shutdown", "close"],
+        ["serve", "contend", "contend", "req", "shutdown", "close"],
+        ["serve", "contend", "fail:sysexit", "req", "shutdown", "close"],
+    ]
+    if kind == "pooled":
+        out += [["serve", "contend", "req", "close"], ["serve", "slow", "contend", "req", "close"]]
+    if thorough:
+        out += [["serve", "contend", "shutdown", "close"], ["serve", "req", "shutdown", "contend", "close"],
+                ["serve", "contend", "bad:badjson", "req", "contend", "req", "shutdown", "close"],
+                ["serve", "contend", "notiffail", "req", "shutdown", "close"]]
+        if kind == "pooled":
+            out += [["serve", "slow", "contend", "slow", "contend", "req", "close"], ["serve", "idle", "contend", "close"],
+                    ["serve", "contend", "slow", "shutdown", "close"]]
+    return out
+
+
+def unbound_histories(kind):
+    """bind_and_activate=False: the server owns a socket that names no address; closing it must be as clean as ever."""
+    return [["unbound", "close"]]
+
+
+def rmfile_histories(kind, thorough):
+    """(Unix) the environment removes the socket file while the server lives; stopping it must be as clean as ever."""
+    out = [["serve", "req", "rmfile", "shutdown", "close"], ["rmfile", "close"]]
+    if kind == "pooled":
+        out.append(["serve", "slow", "rmfile", "close"])
+    if thorough:
+        out += [["serve", "rmfile", "shutdown", "close"], ["serve", "contend", "req", "rmfile", "shutdown", "close"]]
+    return out
+
+
+ADDRESS_OPS = ("contend", "rmfile", "unbound")
+
+
 def workers_needed(h):
     """Peak number of pool workers the history occupies at once (slow and idle connections hold one each)."""
     need, held = 0, 0
@@ -536,7 +673,7 @@ def model_op(op, tok):
 def run_history(ctx, kind, family, tmpdir, pool_spec, hist):
     """Executes one history on the real server.
     -> (op results, final projection, [(violation, key)], model ops)"""
-    L = Life(kind, family, tmpdir, pool_spec, http11=("idleka" in hist))
+    L = Life(kind, family, tmpdir, pool_spec, http11=("idleka" in hist), bind=("unbound" not in hist))
     results, viol, model_ops = [], [], []
     toks = []                   # tokens in acceptance order = connection indices of the model
     specs = {}
@@ -687,6 +824,18 @@ def run_history(ctx, kind, family, tmpdir, pool_spec, hist):
                 model_ops.append(model_op(op, tok))
             elif op in ("shutdown", "close"):
                 stop(op)
+            elif op == "unbound":
+                pass                # constructor configuration (bind_and_activate=False), see Life above
+            elif op == "contend":
+                r, vs = L.contend()
+                for m, key in vs:
+                    viol.append((m + " — history %r" % (hist,), key))
+                results.append(r)
+                model_ops.append("contend")
+            elif op == "rmfile":
+                os.unlink(L.addr)
+                results.append("ok")
+                model_ops.append("rmfile")
             else:
                 raise ValueError(op)
         for g in L.gates.values():
@@ -734,6 +883,8 @@ def run_history(ctx, kind, family, tmpdir, pool_spec, hist):
         proj = "sock=%s pool=%s close=%s shut=%s replies=%s execs=%s" % (
             "closed" if closed else "open", pool_state, stop_state["close"], stop_state["shutdown"],
             ",".join(L.replies.get(t, "-") for t in toks), ",".join(str(L.execlog[t]) for t in toks))
+        if any(op in ADDRESS_OPS for op in hist):
+            proj += " addr=%s" % ("A" if L.reachable() else "nobody")
     finally:
         L.cleanup()
     return results, proj, viol, model_ops
@@ -918,6 +1069,12 @@ def search(ctx):
 
 
 def history_class(h):
+    if "contend" in h:
+        return "address-contended"
+    if "unbound" in h:
+        return "address-unbound"
+    if "rmfile" in h:
+        return "address-file-removed"
     if "queued" in h:
         return "queued-at-close"
     if "idle" in h or "idleka" in h:
@@ -936,7 +1093,11 @@ def run_sockets(ctx):
                 "RecursionError / SystemExit / KeyboardInterrupt / a BaseException subclass, a body that is cut JSON / invalid "
                 "UTF-8 / truncated below its Content-Length / without Content-Length / longer than its Content-Length / 300 kB, a "
                 "failing notification, each followed by healthy calls on the same plain and pooled server, pool of 1 included); "
-                "histories with an idle connection or a queued request at stop time; every request on a raw connection with a "
+                "histories with an idle connection or a queued request at stop time; histories on the server's ADDRESS (history/*/address-*, "
+                "address/<class>/<kind>/<family>): a second server of the same kind constructed on the busy TCP port / Unix path "
+                "before, while and after the first one serves, with a request in flight, twice; a server never bound "
+                "(bind_and_activate=False); the Unix socket file removed by the environment — the first server must answer what "
+                "follows, stop without raising, close its socket and end its workers; every request on a raw connection with a "
                 "harness-chosen id, reply id + token and the execution count per token checked; each stop op polled with a "
                 "generous deadline; plus N concurrent raw clients (quick 8, thorough up to 48) mixing calls, notifications, "
                 "batches, failing and malformed requests, with a slow request in flight while fast ones complete, against pools "
@@ -978,6 +1139,24 @@ def run_sockets(ctx):
                     for n, h in enumerate(survival_histories(srng, ctx.thorough)):
                         for family in (fams if ctx.thorough else (fams[(n + (pool_spec is None)) % 2],)):
                             extra.append((kind, pool_spec, family, h))
+                # the address: a second server constructed on it, a server never bound, the socket file removed
+                arng = ctx.derive_rng("address/%s/%s" % (kind, pool_spec))
+                for family in ("unix", "tcp"):
+                    hs = [h for h in contention_histories(kind, ctx.thorough) if workers_needed(h) <= cap]
+                    if not ctx.thorough:
+                        # quick: every contention history on the default pooled and the plain server over a Unix socket (the
+                        # address is a file there); a seeded pair elsewhere
+                        if not (family == "unix" and pool_spec is None):
+                            hs = arng.sample(hs, 2)
+                    for h in hs:
+                        extra.append((kind, pool_spec, family, h))
+                    if ctx.thorough or pool_spec is None:
+                        for h in unbound_histories(kind):
+                            extra.append((kind, pool_spec, family, h))
+                    if family == "unix" and (ctx.thorough or pool_spec in (None, (2, 1))):
+                        for h in rmfile_histories(kind, ctx.thorough):
+                            if workers_needed(h) <= cap:
+                                extra.append((kind, pool_spec, family, h))
         if not ctx.thorough:
             # quick: every history on the default pooled server over TCP, a seeded third of the other combinations
             keep = [c for c in combos if (c[0] == "pooled" and c[1] is None and c[2] == "tcp")]
@@ -994,7 +1173,11 @@ def run_sockets(ctx):
                 ctx.violate(case, m, key=key)
             if len(unknown_violations(ctx)) >= 6:
                 break       # failing inputs are in hand: no point in spending the rest of the budget
-            lines.append("lifeseq %s %s" % (kind, " ".join(model_ops)))
+            if any(op in ADDRESS_OPS for op in h):
+                lines.append("worldseq %s %s %s" % (kind, "unbound" if "unbound" in h else "bound", " ".join(model_ops)))
+                ctx.hist["address/%s/%s/%s" % (history_class(h)[8:], kind, family)] += 1
+            else:
+                lines.append("lifeseq %s %s" % (kind, " ".join(model_ops)))
             impl_out.append(" ".join(results) + " ; " + proj)
             nontrivial = ("serve" in h) and ("close" in h)
             ctx.count(case_repr=dict(case, results=results, final=proj),
@@ -1026,7 +1209,7 @@ def run_sockets(ctx):
     outs = ctx.lean(lines)
     for ln, mo, io_ in zip(lines, outs, impl_out):
         if mo != io_:
-            ctx.disagree(ln, io_, mo, component="lifeseq")
+            ctx.disagree(ln, io_, mo, component=ln.split(" ", 1)[0])
     ctx.traces_validated += len(lines)
     ctx.assumptions.append("socketserver.BaseServer (serve_forever/shutdown protocol), the kernel's listening sockets and the request "
                            "pool's stop() are an environment model in JRV.Model.ServerLife; the race between server_close() and a "
